@@ -597,6 +597,7 @@ def run(prog, rep, tier='quick', config='default'):
     rep.extra['constrained_unwrap_sites'] = len(sites)
 
     r5b(prog, rep)
+    r5c(prog, rep)
 
 
 def r5b(prog, rep, require_floor=True):
@@ -642,12 +643,146 @@ def r5b(prog, rep, require_floor=True):
     rep.extra['unwrap_sites_examined'] = n_u
 
 
+# ------------------------------------------------------------------ R5c: parallel-sequence indexing
+ALIAS_CALLS = ('deref', 'deref_mut', 'as_ref', 'borrow', 'as_slice', 'as_mut_slice', 'borrow_mut', 'as_mut', 'index', 'index_mut')
+
+
+def place_id(fn, l, extra=()):
+    """(root local, field path) a sequence-valued local is an alias of; '?' path element = something not tracked"""
+    path = list(extra)
+    seen = set()
+    while l is not None and l not in seen:
+        seen.add(l)
+        if l in fn.user or fn.is_param(l):
+            break
+        d = fn.single_def(l)
+        if d is None:
+            break
+        bb, idx, kind, node = d
+        if kind == 'stmt':
+            r = node['r']
+            pl = None
+            if r['rv'] in ('ref', 'rawptr'):
+                pl = r['pl']
+            elif r['rv'] == 'use' and is_place(r['ops'][0]):
+                pl = r['ops'][0]['pl']
+            if pl is None:
+                break
+            path = [e['f'] if isinstance(e, dict) and 'f' in e else ('[]' if isinstance(e, dict) and 'idx' in e else None)
+                    for e in pl['p'] if e != '*'] + path
+            l = pl['l']
+            continue
+        c = fn.call_at[bb]
+        if c.short in ALIAS_CALLS and c.short not in ('index', 'index_mut'):
+            l = c.arg_local(0)
+            continue
+        break
+    return (l, tuple(x for x in path if x is not None))
+
+
+def index_sites(fn):
+    """[(receiver id, index local, where, description)] for `ys[i]` with a usize index on a Vec / slice / array"""
+    out = []
+    for c in fn.calls:
+        if c.short in ('index', 'index_mut') and len(c.args) > 1 and c.decl.startswith('std::ops::Index'):
+            il = c.arg_local(1)
+            if il is None or fn.ty.get(il) != 'usize':
+                continue
+            rty = fn.ty.get(c.arg_local(0), '')
+            if not re.search(r'Vec<|\[', rty):
+                continue
+            out.append((place_id(fn, c.arg_local(0)), il, c.where(), c.bb, rty))
+    seen = set()
+    for i, b in fn.blocks.items():
+        nodes = list(b['stmts'])
+        for s in nodes:
+            pls = list(fn.stmt_sources(s)) + [s['dst']]
+            for pl in pls:
+                for n, e in enumerate(pl['p']):
+                    if isinstance(e, dict) and 'idx' in e:
+                        pre = [x['f'] for x in pl['p'][:n] if isinstance(x, dict) and 'f' in x]
+                        key = (i, pl['l'], tuple(pre), e['idx'])
+                        if key in seen:
+                            continue
+                        seen.add(key)
+                        out.append((place_id(fn, pl['l'], pre), e['idx'], fn.where(s), i, fn.ty.get(pl['l'], '')))
+    return out
+
+
+def r5c(prog, rep, require_floor=True):
+    """`ys[i]` where everything that bounds i (the `0..xs.len()` range it is drawn from, the `i < xs.len()` tests that
+    dominate the access) speaks about the length of *another* sequence xs, and no dominating test relates the two lengths:
+    if ys is shorter than xs the access panics. (Sequences filled from independent scans of input text are the case in point.)"""
+    n_sites = 0
+    n_bounded = 0
+    ordn = {}
+    for fn in prog.product_fns():
+        for (yid, il, where, bb, rty) in index_sites(fn):
+            n_sites += 1
+            org = mir.provenance(fn, {'k': 'copy', 'pl': {'l': il, 'p': []}}, follow_all_call_args=True)
+            bounded = {}
+            if any(x.short == 'next' and 'Range<usize>' in fn.ty.get(x.arg_local(0), '') for x in org.calls):
+                for x in org.calls:
+                    if x.short == 'len' and x.arg_local(0) is not None:
+                        bounded[place_id(fn, x.arg_local(0))] = 'the range it iterates over ends at %s.len()' % fn.describe_local(place_id(fn, x.arg_local(0))[0]).split(':')[0]
+            nu = mir.nearest_user_local(fn, il)
+            idx_roots = {il} | ({nu} if nu is not None else set())
+            related = False
+            CMP = ('Lt', 'Le', 'Gt', 'Ge', 'Eq', 'Ne')
+            for (sbb, discr, vals, neg) in fn.conditions_at(bb):
+                d = mir.provenance(fn, discr, follow_all_call_args=True)
+                for (op, st) in d.binops:
+                    if op not in CMP:
+                        continue
+                    sides = []
+                    for o in st['r']['ops']:
+                        if is_place(o):
+                            po = mir.provenance(fn, o, follow_all_call_args=True)
+                            sides.append((bool((po.locals | {op_local(o)}) & idx_roots),
+                                          {place_id(fn, x.arg_local(0)) for x in po.calls if x.short == 'len' and x.arg_local(0) is not None}))
+                        else:
+                            sides.append((False, set()))
+                    if len(sides) != 2:
+                        continue
+                    (ia, la), (ib, lb) = sides
+                    if (yid in la and lb) or (yid in lb and la):
+                        related = True        # a test relating ys.len() to another length
+                    for (has_i, _), (_, lens) in (((ia, la), (ib, lb)), ((ib, lb), (ia, la))):
+                        if has_i:
+                            for pid_ in lens:
+                                bounded.setdefault(pid_, 'a dominating test compares it with %s.len()' % fn.describe_local(pid_[0]).split(':')[0])
+            if not bounded:
+                continue
+            n_bounded += 1
+            ordn[fn.name] = ordn.get(fn.name, 0) + 1
+            k = '%s|index-bounded-by-own-length#%d' % (fn.name, ordn[fn.name])
+            if yid in bounded or related:
+                rep.ok('R5c', k, where=where, fn=fn.name, detail='index into %s is bounded by the length of the same sequence' % rty[:60])
+            else:
+                why = '; '.join(sorted(set(bounded.values())))
+                rep.violation('R5c', k, where=where, fn=fn.name,
+                              detail='index into %s (%s) is only bounded by the length of another sequence (%s) and no dominating test '
+                                     'relates the two lengths: a shorter sequence makes this access panic instead of producing a diagnostic'
+                                     % (fn.describe_local(yid[0]).split(':')[0] + ''.join('.' + f for f in yid[1]), rty[:50], why))
+    rep.extra['index_sites'] = n_sites
+    rep.extra['index_sites_with_length_bound'] = n_bounded
+    if require_floor:
+        if n_sites < 15:
+            rep.violation('R5c', 'anchor-lost:index-sites', detail='anchor lost: only %d usize index sites recognised (24 counted by hand)' % n_sites)
+        else:
+            rep.ok('R5c', 'no-index-bounded-only-by-another-length', fn='(all product crates)',
+                   detail='%d usize index sites on Vec/slice examined; %d draw their index from a length-bounded range or test; none is '
+                          'bounded only by the length of a different sequence' % (n_sites, n_bounded), trivial=True)
+
+
+
 def fixture():
     import facts
     import check
     prog = mir.Program(facts.ensure_fixture())
     rep = check.Report('C05')
     r5b(prog, rep, require_floor=False)
+    r5c(prog, rep, require_floor=False)
     bad = sorted({o.fn for o in rep.obs if o.status == check.VIOLATION})
-    want = ['@verif_fixture_pos::bad_unwrap_user_number']
+    want = ['@verif_fixture_pos::bad_parallel_index', '@verif_fixture_pos::bad_parallel_index_slice', '@verif_fixture_pos::bad_unwrap_user_number']
     return {'ok': bad == want, 'reported': bad, 'expected': want}
